@@ -143,3 +143,17 @@ def frame_plan(draw, kinds=ALL_FRAME_KINDS, max_rows=12, max_cols=5, min_cols=1,
         kind = draw(st.sampled_from(kinds))
         cols.append({"name": nm[j], "kind": kind, "vals": draw(values(kind, n, mode=mode))})
     return {"n": n, "cols": cols}
+
+
+@st.composite
+def big_values(draw, kind, n, na="none"):
+    """
+    n cell values (n may be in the hundreds) from a handful of drawn base values laid out by a drawn
+    arithmetic pattern: cheap for Hypothesis (a dozen draws), still full of ties and interleavings.
+    """
+    base = draw(values(kind, draw(st.integers(2, 6)), mode="tight", na=na))
+    a, b = draw(st.integers(1, 97)), draw(st.integers(0, 97))
+    return [base[(i * a + (i * i // 3) * b) % len(base)] for i in range(n)]
+
+
+BIG_SIZES = [65, 129, 257, 300]
